@@ -9,6 +9,7 @@ pub mod c10;
 pub mod c11;
 pub mod c12;
 pub mod c16;
+pub mod c17;
 pub mod daemon;
 pub mod client;
 pub mod hostile;
@@ -117,6 +118,7 @@ pub fn all() -> Vec<PropDef> {
     v.push(c11::def());
     v.push(c12::def());
     v.push(c16::def());
+    v.push(c17::def());
     v.push(fe::def_c02());
     v.push(fe::def_c03());
     v.push(breq::def_c18());
